@@ -119,12 +119,24 @@ theorem PTrail.spec : RateSpec PTrail where
     rintro st log E v ⟨alive, tr, ht, hs, hw, hal⟩
     exact ⟨alive, tr, ht, sub_grow hs v, hw, hal⟩
   term := by
-    rintro st log E n s hn hf ⟨alive, tr, ht, hs, hw, hal⟩
+    rintro st log E n s hn ⟨alive, tr, ht, hs, hw, hal⟩
     cases st with
     | debounce d al tr' hd =>
       simp only [Stage.trail, Option.some.injEq, Prod.mk.injEq] at ht; obtain ⟨rfl, rfl⟩ := ht
-      have hal' : al = true := by simpa [fin] using hf
-      subst hal'
+      -- a stage whose slot is already empty swallows the terminal
+      cases al with
+      | false =>
+        cases n with
+        | next v => simp [Notif.isTerm] at hn
+        | error er =>
+          simp only [Stage.feed, Stage.onNotif, Stage.afterEmit, Bool.false_eq_true, if_false,
+            List.append_nil]
+          exact PTrail.intro false tr' rfl hs hw (by simp)
+        | complete =>
+          simp only [Stage.feed, Stage.onNotif, Stage.afterEmit, Bool.false_eq_true, if_false,
+            List.append_nil]
+          exact PTrail.intro false none rfl (by simpa using sub_left hs) hw (by simp)
+      | true =>
       have hnt := hal rfl
       cases n with
       | next v => simp [Notif.isTerm] at hn
@@ -147,8 +159,20 @@ theorem PTrail.spec : RateSpec PTrail where
             rw [snoc2]; exact WF_snoc_term h1.1 h1.2 .complete
     | throttle d e al tr' hd =>
       simp only [Stage.trail, Option.some.injEq, Prod.mk.injEq] at ht; obtain ⟨rfl, rfl⟩ := ht
-      have hal' : al = true := by simpa [fin] using hf
-      subst hal'
+      -- a stage whose slot is already empty swallows the terminal
+      cases al with
+      | false =>
+        cases n with
+        | next v => simp [Notif.isTerm] at hn
+        | error er =>
+          simp only [Stage.feed, Stage.onNotif, Stage.afterEmit, Bool.false_eq_true, if_false,
+            List.append_nil]
+          exact PTrail.intro false tr' rfl hs hw (by simp)
+        | complete =>
+          simp only [Stage.feed, Stage.onNotif, Stage.afterEmit, Bool.false_eq_true, if_false,
+            List.append_nil]
+          exact PTrail.intro false none rfl (by simpa using sub_left hs) hw (by simp)
+      | true =>
       have hnt := hal rfl
       cases n with
       | next v => simp [Notif.isTerm] at hn
@@ -170,7 +194,7 @@ theorem PTrail.spec : RateSpec PTrail where
           · show WF (log ++ [Notif.next v, Notif.complete])
             rw [snoc2]; exact WF_snoc_term h1.1 h1.2 .complete
     | _ => simp [Stage.trail] at ht
-  termDead := fun _ _ _ _ h => h
+  termDead := fun _ _ _ h => h
   unsub := by
     rintro st log E a T ⟨alive, tr, ht, hs, hw, hal⟩
     cases st with
@@ -320,7 +344,7 @@ theorem PBuf.spec (cnt : Option Nat) : RateSpec (PBuf cnt) where
     · exact I.pre.trans (List.prefix_append _ _)
     · intro h; exact absurd (I.compl h).2 (by simp)
   term := by
-    rintro st log E n s hn hf ⟨d, alive, data, task, rfl, I, hroom⟩
+    rintro st log E n s hn ⟨d, alive, data, task, rfl, I, hroom⟩
     have hal := (I.full rfl rfl).2
     subst hal
     cases n with
@@ -337,8 +361,8 @@ theorem PBuf.spec (cnt : Option Nat) : RateSpec (PBuf cnt) where
       have := hroom c hc
       simp; omega
   termDead := by
-    rintro st log E a ⟨d, alive, data, task, rfl, I, hroom⟩
-    refine ⟨d, alive, data, task, rfl, ⟨I.pre, fun _ h => by simp at h, I.bufs, I.wf, I.unterminated, ?_⟩, hroom⟩
+    rintro st log E ⟨d, alive, data, task, rfl, I, hroom⟩
+    refine ⟨d, alive, data, task, rfl, ⟨I.pre, fun h => by simp at h, I.bufs, I.wf, I.unterminated, ?_⟩, hroom⟩
     intro h; exact absurd (I.compl h).2 (by simp)
   unsub := by
     rintro st log E a T ⟨d, alive, data, task, rfl, I, hroom⟩
